@@ -82,15 +82,12 @@ def subpixel_pcc(
             )
         ]
 
-        maxima = (
-            backend.asnumpy(
-                backend.unravel_index(backend.argmax(power), power.shape)
-            ).astype(np.float32)
-            + _starts
-            - dftshift
+        peak = backend.asnumpy(
+            backend.unravel_index(backend.argmax(power), power.shape)
         )
+        maxima = peak.astype(np.float32) + _starts - dftshift
         shifts = shifts + maxima / upsample_factor
-        pcc = math.sqrt(backend.asnumpy(power[tuple(int(round(m)) for m in maxima)]))
+        pcc = math.sqrt(backend.asnumpy(power[tuple(int(i) for i in peak)]))
     else:
         pcc = math.sqrt(backend.asnumpy(power[tuple(maxima)]))
     return shifts, pcc
